@@ -19,7 +19,7 @@ import (
 //
 // The probe set is deliberately an UNDER-approximation, so that the monitor never reports an access
 // that does not happen: operands that are evaluated conditionally (right operands of && and ||, `if`
-// conditions with an init statement, `else if` / `for` / `case` headers), operands behind a call that
+// conditions with an init statement, `else if` / `for` / `case` headers - right operands of && and || get in-place probes, see condOperands), operands behind a call that
 // may synchronise before they are evaluated, non-addressable operands and operands whose base expression
 // has side effects are not probed. Fields of sync / sync/atomic types are never plain accesses.
 
@@ -106,6 +106,7 @@ func (r *rw) trackFile(f *ast.File) {
 	})
 	for _, d := range f.Decls {
 		if fd, ok := d.(*ast.FuncDecl); ok && fd.Body != nil {
+			tk.condOperands(fd.Body)
 			tk.block(fd.Body)
 		}
 	}
@@ -120,6 +121,62 @@ func (r *rw) trackFile(f *ast.File) {
 		}
 		return true
 	})
+}
+
+// condOperands gives the right operands of && and || their probes IN PLACE: `a && Y` becomes
+// `a && (vrt.Rt(&f1, site) && vrt.Rt(&f2, site) && (Y))` where f1, f2 are the tracked fields Y reads unconditionally
+// (the operands nested in Y's own right operands are handled by their own rewriting). The probes run after `a`, before
+// Y and only when Y is evaluated, so - unlike statement-level probes - they need no under-approximation. Y with more than
+// one real call is left alone (evaluation order of its operands relative to the calls is not fixed), as for statements.
+// All probe sets are computed on the original tree before anything is rewritten.
+func (tk *tracker) condOperands(body *ast.BlockStmt) {
+	type job struct {
+		b  *ast.BinaryExpr
+		ps []probe
+	}
+	var jobs []job
+	ast.Inspect(body, func(n ast.Node) bool {
+		b, ok := n.(*ast.BinaryExpr)
+		if !ok || (b.Op != token.LAND && b.Op != token.LOR) {
+			return true
+		}
+		if tk.calls(b.Y) > 1 {
+			return true
+		}
+		var ps []probe
+		for _, p := range tk.reads(b.Y) {
+			if p.fn == "R" && !p.data {
+				ps = append(ps, p)
+			}
+		}
+		if len(ps) > 0 {
+			jobs = append(jobs, job{b, ps})
+		}
+		return true
+	})
+	for _, j := range jobs {
+		var e ast.Expr = &ast.ParenExpr{X: j.b.Y}
+		for i := len(j.ps) - 1; i >= 0; i-- {
+			p := j.ps[i]
+			tk.probed[p.expr] = true
+			tk.r.usedVrt, tk.r.usedUns = true, true
+			tk.r.stats["probe:Rt"]++
+			rt := call(sel("vrt", "Rt"), call(sel("unsafe", "Pointer"), &ast.UnaryExpr{Op: token.AND, X: p.expr}),
+				&ast.BasicLit{Kind: token.STRING, Value: strconv.Quote(p.site)})
+			e = &ast.BinaryExpr{X: rt, Op: token.LAND, Y: e}
+		}
+		j.b.Y = &ast.ParenExpr{X: e}
+	}
+}
+
+// isRt: a call of the probe vrt.Rt inserted by condOperands (it has no type information).
+func isRt(e *ast.CallExpr) bool {
+	if fs, ok := e.Fun.(*ast.SelectorExpr); ok && fs.Sel.Name == "Rt" {
+		if id, ok := fs.X.(*ast.Ident); ok && id.Name == "vrt" {
+			return true
+		}
+	}
+	return false
 }
 
 func syncType(t types.Type) bool {
@@ -390,6 +447,9 @@ func (tk *tracker) calls(n ast.Node) int {
 		case *ast.FuncLit:
 			return false
 		case *ast.CallExpr:
+			if isRt(e) {
+				return false // an inserted probe: neither a call of the program nor anything to look into
+			}
 			if !tk.pureCall(e) && !tk.atomicCall(e) {
 				c++
 			}
@@ -426,6 +486,9 @@ func (tk *tracker) atomicCall(e *ast.CallExpr) bool {
 }
 
 func (tk *tracker) pureCall(e *ast.CallExpr) bool {
+	if isRt(e) {
+		return true
+	}
 	if tv, ok := tk.r.info.Types[e.Fun]; ok && tv.IsType() {
 		return true // conversion
 	}
